@@ -189,6 +189,8 @@ def sdfFindEnd : List Line → Int → Res Unit
   | [], ln => .raise .loadError ⟨[], ln + 1⟩
   | l :: t, ln => if l = sdfEnd then .ok () ⟨t, ln + 1⟩ else sdfFindEnd t (ln + 1)
 
+def sdfFindEndM : M Unit := fun s => sdfFindEnd s.pending s.lineno
+
 def lastWordUpper (l : Line) : Option Line := (words l).getLast?.map (·.map upperChar)
 
 def sdfLoadOne (pa : Line → Option α) (pb : Line → Option β) : M (SdfFrame α β) := do
@@ -212,7 +214,7 @@ def sdfLoadOne (pa : Line → Option α) (pb : Line → Option β) : M (SdfFrame
           if nb < 0 then throw .other
           else do
             let bonds ← readN pb nb.toNat
-            (fun s => sdfFindEnd s.pending s.lineno : M Unit)
+            sdfFindEndM
             pure ⟨strip tl, atoms, bonds⟩
 
 def sdfDumpOne (fc : Nat → Nat → Line) (fa : α → Line) (fb : β → Line) (f : SdfFrame α β) : List Line :=
